@@ -135,3 +135,55 @@ let cmd_uiss t =
       | UOk (ua, Some ut) -> Printf.printf "%s res=ok %s tok=1 %s\n" head (pu "a" ua) (pu "t" ut)
 
 let () = register "ubl" cmd_ubl; register "uiss" cmd_uiss
+
+(* uhist <mode> <master> <nkeys> k.. <nbase> {value asset abf vbf script R esk E}* <nsteps>
+         { <nin> { <outpoint> (c <base> <ops> | e <asset> <value> <script>) }* <nidx> idx* }*
+         <nderive> {script key}* <oracle> *)
+type uh_in = UhC of int * op list | UhE of byte list * byte list * byte list
+
+let cmd_uhist t =
+  let mode = next t in let _master = next_hex t in
+  let keys = next_list t next_hex in
+  let bases = next_list t (fun t ->
+    let v = next_hn t in let a = next_hex t in let abf = next_hex t in let vbf = next_hex t in
+    let s = next_hex t in let r = next_hex t in let esk = next_hex t in let e = next_hex t in
+    (v, a, abf, vbf, s, r, esk, e)) in
+  let steps = next_list t (fun t ->
+    let ins = next_list t (fun t ->
+      let _outpoint = next_int t in
+      if next t = "e" then (let a = next_hex t in let v = next_hex t in let s = next_hex t in UhE (a, v, s))
+      else (let b = next_int t in let ops = read_ops t in UhC (b, ops))) in
+    let idxs = next_list t next_n in (ins, idxs)) in
+  let derive = next_list t (fun t -> let s = next_hex t in let k = next_hex t in (s, k)) in
+  let tb = read_oracle t in
+  let z0 = Z0 and z52 = z_of_int 52 in
+  let blinded = Stdlib.List.map (fun (v, a, abf, vbf, s, r, esk, e) ->
+    match o_blind_output tb v a abf vbf s r esk z0 z52 with
+    | Some b -> Some [| b.bl_asset; b.bl_value; s; e; b.bl_proof |]
+    | None -> None) bases in
+  if Stdlib.List.exists (fun x -> x = None) blinded then Printf.printf "blind=err\n" else begin
+    let blinded = Array.of_list (Stdlib.List.map (function Some x -> x | None -> [||]) blinded) in
+    let gk = if mode = "m"
+      then GMaster (fun scr -> match Stdlib.List.assoc_opt scr derive with Some k -> k | None -> [])
+      else GKeys keys in
+    let prevout = function
+      | UhE (a, v, s) -> { o_asset = a; o_value = v; o_script = s; o_nonce = [byte_tbl.(0)]; o_rp = []; o_sp = [] }
+      | UhC (b, ops) ->
+        let f = Array.copy blinded.(b) in
+        Stdlib.List.iter (apply_op f) ops;
+        { o_asset = f.(0); o_value = f.(1); o_script = f.(2); o_nonce = f.(3); o_rp = f.(4); o_sp = [] } in
+    let hist = Stdlib.List.map (fun (ins, idxs) -> (Stdlib.List.map prevout ins, idxs)) steps in
+    let (_, results) = o_gen_run tb gk hist in
+    let b = Buffer.create 256 in
+    Buffer.add_string b "blind=ok";
+    Stdlib.List.iteri (fun k r ->
+      let s = match r with
+        | UErr -> "err" | UPanic -> "panic"
+        | UOk l -> "ok:" ^ Stdlib.String.concat ";" (Stdlib.List.map (fun o ->
+            Printf.sprintf "%d,%s,%s,%s,%s" (int_of_n o.ow_index) (hex_of_n o.ow_value) (hex_of_bytes o.ow_asset)
+              (hex_of_bytes o.ow_vbf) (hex_of_bytes o.ow_abf)) l) in
+      Buffer.add_string b (Printf.sprintf " s%d=%s" k s)) results;
+    print_endline (Buffer.contents b)
+  end
+
+let () = register "uhist" cmd_uhist
